@@ -155,6 +155,19 @@ fn small_family(len: usize, fam: usize, rng: &mut Rng) -> (Vec<u8>, &'static str
 }
 
 pub fn run(ctx: &mut Ctx) {
+    // --replay with a recorded input: run exactly that byte string through every entry point
+    if let Some(hexs) = ctx.replay.as_ref().and_then(|r| r.get("case")).and_then(|c| c.get("input_hex")).and_then(|h| h.as_str()) {
+        let full = ctx.replay.as_ref().and_then(|r| r.get("case")).and_then(|c| c.get("input_len")).and_then(|l| l.as_u64()).unwrap_or(0) as usize;
+        let input = crate::ev::unhex(hexs);
+        if input.len() == full {
+            #[allow(unused_mut, unused_variables)]
+            let mut rng = Rng::derive(ctx.seed, 0, 0);
+            println!("replay: running the recorded {}-byte input alone", input.len());
+            run_input(&mut ctx.obs, &input, "replay");
+            return;
+        }
+        println!("replay: recorded input was abbreviated; re-running the whole seeded workload");
+    }
     ctx.rule = "a case is one byte string wrapped as File / Record (owned and borrowed) / Chunk and driven through records, header (+accessors), compressed, decompress (and the decompressed record's own calls), messages, scan, split_compressed_records and {:?} of each; \
 trivial = empty input; distinct = distinct input contents; families: every length 0..=64 x 12 content families, every truncation point of valid volumes/containers/chunks, corrupted size prefix at every record, 1-16 bit flips in bzip2 bodies, random bytes to 8 KiB; verdict monitor = panic hook (termination is bounded only by the outer wall-clock watchdog, which yields inconclusive)"
         .into();
